@@ -31,7 +31,7 @@ pub enum AFmt {
 pub const AFMTS: [AFmt; 4] = [AFmt::Sam, AFmt::SamGz, AFmt::Bam, AFmt::Cram];
 
 impl AFmt {
-    fn name(self) -> &'static str {
+    pub fn name(self) -> &'static str {
         match self {
             AFmt::Sam => "sam",
             AFmt::SamGz => "sam.gz",
@@ -48,7 +48,7 @@ pub struct AlnCase {
     pub empty: bool,
 }
 
-fn write_aln(fmt: AFmt, header: &sam::Header, records: &[Box<dyn sam::alignment::Record>], repo: &noodles_fasta::Repository) -> io::Result<Vec<u8>> {
+pub fn write_aln(fmt: AFmt, header: &sam::Header, records: &[Box<dyn sam::alignment::Record>], repo: &noodles_fasta::Repository) -> io::Result<Vec<u8>> {
     let mut out = Vec::new();
     {
         let b = alignment::io::writer::Builder::default().set_reference_sequence_repository(repo.clone());
@@ -68,9 +68,13 @@ fn write_aln(fmt: AFmt, header: &sam::Header, records: &[Box<dyn sam::alignment:
     Ok(out)
 }
 
-fn read_aln(bytes: &[u8], repo: &noodles_fasta::Repository) -> io::Result<(sam::Header, Vec<sam::alignment::RecordBuf>)> {
+pub fn read_aln(bytes: &[u8], repo: &noodles_fasta::Repository) -> io::Result<(sam::Header, Vec<sam::alignment::RecordBuf>)> {
+    read_aln_from(bytes, repo)
+}
+
+pub fn read_aln_from<R: io::Read>(src: R, repo: &noodles_fasta::Repository) -> io::Result<(sam::Header, Vec<sam::alignment::RecordBuf>)> {
     // no format, no compression method: detection from the leading bytes alone
-    let mut r = alignment::io::reader::Builder::default().set_reference_sequence_repository(repo.clone()).build_from_reader(bytes)?;
+    let mut r = alignment::io::reader::Builder::default().set_reference_sequence_repository(repo.clone()).build_from_reader(src)?;
     let header = r.read_header()?;
     let mut v = Vec::new();
     for rec in r.records(&header) {
@@ -78,6 +82,32 @@ fn read_aln(bytes: &[u8], repo: &noodles_fasta::Repository) -> io::Result<(sam::
         v.push(sam::alignment::RecordBuf::try_from_alignment_record(&header, rec.as_ref())?);
     }
     Ok((header, v))
+}
+
+/// The other read API of the generic reader: `read_record` into one reused `alignment::Record`,
+/// decoded through the record trait.
+fn read_aln_lazy(bytes: &[u8], repo: &noodles_fasta::Repository) -> io::Result<Vec<sam::alignment::RecordBuf>> {
+    let mut r = alignment::io::reader::Builder::default().set_reference_sequence_repository(repo.clone()).build_from_reader(bytes)?;
+    let header = r.read_header()?;
+    let mut rec = alignment::Record::default();
+    let mut v = Vec::new();
+    while r.read_record(&header, &mut rec)? != 0 {
+        v.push(sam::alignment::RecordBuf::try_from_alignment_record(&header, &rec)?);
+    }
+    Ok(v)
+}
+
+/// A source that hands the file over in short reads (the first ones 1–5 bytes): what a pipe or a
+/// socket does. Detection looks at the leading bytes only.
+pub fn short_reads(bytes: &[u8], sel: u64) -> crate::io_adv::chunk::ChunkRead {
+    use crate::io_adv::chunk::{ChunkRead, ReadScript};
+    let sizes: Vec<u32> = match sel % 4 {
+        0 => vec![1],
+        1 => vec![2, 70_000],
+        2 => vec![3, 1, 70_000],
+        _ => vec![5, 70_000],
+    };
+    ChunkRead::new(std::sync::Arc::new(bytes.to_vec()), ReadScript { sizes, cuts: vec![], interrupts: vec![] })
 }
 
 fn magic_ok(fmt: AFmt, bytes: &[u8]) -> bool {
@@ -204,6 +234,21 @@ fn check_aln(c: &AlnCase) -> Verdict {
                     Err(e) => fails.push(format!("c20.detect-or-read-error:{}{}", fmt.name(), if c.empty { ":empty" } else { "" }), format!("generic reader failed on the generic writer's own {} output ({} bytes): {e}", fmt.name(), bytes.len())),
                     Ok((h, recs)) => {
                         compare(&h, &recs, &format!("{}{}", fmt.name(), if c.empty { ":empty" } else { "" }), fmt == AFmt::Cram, &mut fails);
+                        // the same file through `read_record` (one reused generic record)
+                        let canon = |v: &[sam::alignment::RecordBuf]| -> Vec<gcram::Canon> { v.iter().map(gcram::canon_of_record).collect() };
+                        match read_aln_lazy(&bytes, &n.repository) {
+                            Err(e) => fails.push(format!("c20.read-record-error:{}", fmt.name()), format!("Reader::read_record fails where records() succeeds: {e}")),
+                            Ok(lz) => {
+                                let (a, b) = (canon(&recs), canon(&lz));
+                                if a != b {
+                                    let i = a.iter().zip(b.iter()).position(|(x, y)| x != y).unwrap_or(a.len().min(b.len()));
+                                    fails.push(
+                                        format!("c20.read-record-differs:{}", fmt.name()),
+                                        format!("record {i}: records() gives {} | read_record gives {}", a.get(i).map(|x| trunc(&gcram::canonical_text(x), 400)).unwrap_or("<none>".into()), b.get(i).map(|x| trunc(&gcram::canonical_text(x), 400)).unwrap_or("<none>".into())),
+                                    );
+                                }
+                            }
+                        }
                         files.push((fmt, bytes));
                     }
                 }
@@ -261,7 +306,7 @@ pub enum VFmt {
 pub const VFMTS: [VFmt; 3] = [VFmt::Vcf, VFmt::VcfGz, VFmt::Bcf];
 
 impl VFmt {
-    fn name(self) -> &'static str {
+    pub fn name(self) -> &'static str {
         match self {
             VFmt::Vcf => "vcf",
             VFmt::VcfGz => "vcf.gz",
@@ -276,7 +321,7 @@ pub struct VarCase {
     pub header_only: bool,
 }
 
-fn write_var(fmt: VFmt, header: &vcf::Header, records: &[Box<dyn vcf::variant::Record>]) -> io::Result<Vec<u8>> {
+pub fn write_var(fmt: VFmt, header: &vcf::Header, records: &[Box<dyn vcf::variant::Record>]) -> io::Result<Vec<u8>> {
     let mut out = Vec::new();
     {
         let b = variant::io::writer::Builder::default();
@@ -295,8 +340,12 @@ fn write_var(fmt: VFmt, header: &vcf::Header, records: &[Box<dyn vcf::variant::R
     Ok(out)
 }
 
-fn read_var(bytes: &[u8]) -> io::Result<(vcf::Header, Vec<vcf::variant::RecordBuf>)> {
-    let mut r = variant::io::reader::Builder::default().build_from_reader(bytes)?;
+pub fn read_var(bytes: &[u8]) -> io::Result<(vcf::Header, Vec<vcf::variant::RecordBuf>)> {
+    read_var_from(bytes)
+}
+
+pub fn read_var_from<R: io::Read>(src: R) -> io::Result<(vcf::Header, Vec<vcf::variant::RecordBuf>)> {
+    let mut r = variant::io::reader::Builder::default().build_from_reader(src)?;
     let header = r.read_header()?;
     let mut v = Vec::new();
     for rec in r.records(&header) {
@@ -304,6 +353,18 @@ fn read_var(bytes: &[u8]) -> io::Result<(vcf::Header, Vec<vcf::variant::RecordBu
         v.push(vcf::variant::RecordBuf::try_from_variant_record(&header, rec.as_ref())?);
     }
     Ok((header, v))
+}
+
+/// `read_record` into one reused generic `variant::Record`.
+fn read_var_lazy(bytes: &[u8]) -> io::Result<Vec<vcf::variant::RecordBuf>> {
+    let mut r = variant::io::reader::Builder::default().build_from_reader(bytes)?;
+    let header = r.read_header()?;
+    let mut rec = variant::Record::default();
+    let mut v = Vec::new();
+    while r.read_record(&mut rec)? != 0 {
+        v.push(vcf::variant::RecordBuf::try_from_variant_record(&header, &rec)?);
+    }
+    Ok(v)
 }
 
 fn check_var(c: &VarCase) -> Verdict {
@@ -353,6 +414,18 @@ fn check_var(c: &VarCase) -> Verdict {
                     Err(e) => fails.push(format!("c20.detect-or-read-error:{}", fmt.name()), format!("generic reader failed on the generic writer's own {} output ({} bytes): {e}", fmt.name(), bytes.len())),
                     Ok((_, recs)) => {
                         compare(&recs, fmt.name(), fmt == VFmt::Bcf, fmt != VFmt::Bcf, &mut fails);
+                        let models = |v: &[vcf::variant::RecordBuf]| -> Vec<gvar::VarRecord> { v.iter().map(gvar::VarRecord::from_record_buf).collect() };
+                        match read_var_lazy(&bytes) {
+                            Err(e) => fails.push(format!("c20.read-record-error:{}", fmt.name()), format!("Reader::read_record fails where records() succeeds: {e}")),
+                            Ok(lz) => {
+                                let (a, b) = (models(&recs), models(&lz));
+                                if a.len() != b.len() {
+                                    fails.push(format!("c20.read-record-differs:{}", fmt.name()), format!("records() gives {} records, read_record {}", a.len(), b.len()));
+                                } else if let Some((i, (field, detail))) = a.iter().zip(b.iter()).enumerate().find_map(|(i, (x, y))| x.first_diff(y).map(|d| (i, d))) {
+                                    fails.push(format!("c20.read-record-differs:{}", fmt.name()), format!("record {i} field {field}: {} (left = records(), right = read_record)", trunc(&detail, 500)));
+                                }
+                            }
+                        }
                         files.push((fmt, bytes));
                     }
                 }
@@ -391,6 +464,105 @@ fn check_var(c: &VarCase) -> Verdict {
     fails.finish(Pass::new(!model.is_empty(), key_of(c)).evals(evals).label_if(model.is_empty(), "header-only").label_if(model.len() >= 2, "records>=2"))
 }
 
+/// The files the generic writers produce for a case, per format (formats whose writer rejects the
+/// document are left out). Used by C12 to deliver the same streams in short reads.
+pub fn aln_files(c: &AlnCase) -> (noodles_fasta::Repository, Vec<(AFmt, Vec<u8>)>) {
+    let mut doc = c.doc.clone();
+    doc.opts.records_per_slice = 0;
+    doc.opts.enc = None;
+    let n = doc.to_noodles();
+    let (header, input) = if c.empty { (sam::Header::default(), Vec::new()) } else { (n.header.clone(), n.records.clone()) };
+    let boxed: Vec<Box<dyn sam::alignment::Record>> = input.iter().map(|r| Box::new(r.clone()) as Box<dyn sam::alignment::Record>).collect();
+    let files = AFMTS.into_iter().filter_map(|f| write_aln(f, &header, &boxed, &n.repository).ok().map(|b| (f, b))).collect();
+    (n.repository, files)
+}
+
+pub fn var_files(c: &VarCase) -> Vec<(VFmt, Vec<u8>)> {
+    let Ok(header) = c.doc.header.to_noodles() else { return Vec::new() };
+    let input: Vec<vcf::variant::RecordBuf> = if c.header_only { Vec::new() } else { c.doc.records.iter().map(|r| r.to_noodles()).collect() };
+    let boxed: Vec<Box<dyn vcf::variant::Record>> = input.iter().map(|r| Box::new(r.clone()) as Box<dyn vcf::variant::Record>).collect();
+    VFMTS.into_iter().filter_map(|f| write_var(f, &header, &boxed).ok().map(|b| (f, b))).collect()
+}
+
+pub fn aln_case_strategy() -> BoxedStrategy<AlnCase> {
+    (gcram::doc_strategy(gcram::Params::robust()), prop_oneof![9 => Just(false), 1 => Just(true)]).prop_map(|(doc, empty)| AlnCase { doc, empty }).boxed()
+}
+
+pub fn var_case_strategy(tier: Tier) -> BoxedStrategy<VarCase> {
+    (gvar::document(tier, &gvar::Mode::bcf_safe()), prop_oneof![9 => Just(false), 1 => Just(true)]).prop_map(|(doc, header_only)| VarCase { doc, header_only }).boxed()
+}
+
+// ---------------------------------------------------------------------------------------------
+// SAM has no magic number: a stream without header lines starts with the first read name
+
+#[derive(Clone, Debug, Serialize, Deserialize)]
+pub struct HeaderlessCase {
+    /// read names (the first one is what detection sees)
+    pub names: Vec<String>,
+    pub seq_len: Vec<u8>,
+}
+
+fn headerless_strategy() -> BoxedStrategy<HeaderlessCase> {
+    // names that begin like another format's magic number, and ordinary ones
+    let first = prop_oneof![
+        3 => ("(BAM|CRAM|BCF|BA|CRA|bam|cram|SAM|VCF|GFF|1f8b|BAM1|CRAM3|BAM_|CRAM_)", "[!-?A-~]{0,12}").prop_map(|(a, b)| format!("{a}{b}")),
+        2 => "[!-?A-~]{1,20}".prop_map(|s| s),
+    ];
+    (first, proptest::collection::vec("[!-?A-~]{1,20}", 0..4), proptest::collection::vec(0u8..40, 5))
+        // `*` alone means "no name" in SAM text and is rejected as a name by the writers
+        .prop_map(|(f, rest, seq_len)| HeaderlessCase { names: std::iter::once(f).chain(rest).map(|n| if n == "*" { "x".to_string() } else { n }).collect(), seq_len })
+        .boxed()
+}
+
+fn check_headerless(c: &HeaderlessCase) -> Verdict {
+    let header = sam::Header::default();
+    let repo = noodles_fasta::Repository::default();
+    let input: Vec<sam::alignment::RecordBuf> = c
+        .names
+        .iter()
+        .enumerate()
+        .map(|(i, name)| {
+            let n = c.seq_len[i % c.seq_len.len()] as usize;
+            let seq: Vec<u8> = (0..n).map(|k| b"ACGT"[(k + i) % 4]).collect();
+            let qual: Vec<u8> = (0..n).map(|k| 10 + ((k * 7 + i) % 30) as u8).collect();
+            sam::alignment::RecordBuf::builder()
+                .set_name(name.as_bytes())
+                .set_flags(sam::alignment::record::Flags::UNMAPPED)
+                .set_sequence(seq.into())
+                .set_quality_scores(qual.into())
+                .build()
+        })
+        .collect();
+    let want: Vec<gcram::Canon> = input.iter().map(gcram::canon_of_record).collect();
+    let boxed: Vec<Box<dyn sam::alignment::Record>> = input.iter().map(|r| Box::new(r.clone()) as Box<dyn sam::alignment::Record>).collect();
+    let mut fails = Fails::new();
+    let mut evals = 0u64;
+    for fmt in AFMTS {
+        evals += 1;
+        let bytes = match write_aln(fmt, &header, &boxed, &repo) {
+            Ok(b) => b,
+            Err(e) => {
+                fails.push(format!("c20.headerless.write-error:{}", fmt.name()), format!("{e}"));
+                continue;
+            }
+        };
+        // magic-like prefix of the first name, for the signature (a class, not the input)
+        let first = &c.names[0];
+        let prefix = ["CRAM", "BAM", "BCF"].into_iter().find(|p| first.starts_with(p)).unwrap_or("other");
+        match read_aln(&bytes, &repo) {
+            Err(e) => fails.push(format!("c20.headerless.detect-or-read-error:{}:first-name-{prefix}", fmt.name()), format!("a {} stream without header lines whose first read is named {first:?} is not read back: {e}", fmt.name())),
+            Ok((_, recs)) => {
+                let got: Vec<gcram::Canon> = recs.iter().map(gcram::canon_of_record).collect();
+                if got != want {
+                    fails.push(format!("c20.headerless.differs:{}", fmt.name()), format!("{} records read back, {} written (or their contents differ); first name {first:?}", got.len(), want.len()));
+                }
+            }
+        }
+    }
+    let magic_like = ["CRAM", "BAM", "BCF"].iter().any(|p| c.names[0].starts_with(p));
+    fails.finish(Pass::new(true, key_of(c)).evals(evals).label_if(magic_like, "first-name-starts-like-a-magic-number").label_if(c.names.len() >= 2, "records>=2"))
+}
+
 pub fn property() -> Property {
     Property {
         id: "C20",
@@ -408,17 +580,18 @@ pub fn property() -> Property {
                     (gcram::doc_strategy(gcram::Params::robust()), prop_oneof![9 => Just(false), 1 => Just(true)]).prop_map(|(doc, empty)| AlnCase { doc, empty }).boxed()
                 },
                 check_aln,
-                3_000,
-                80_000,
+                12_000,
+                150_000,
             )
             .boxed(),
+            sub("alignment_headerless", "SAM/SAM.gz/BAM/CRAM streams with an empty header and unmapped reads whose first name begins like a magic number (BAM, CRAM, BCF, …) or not; every case is non-trivial; distinct by hash", |_tier| headerless_strategy(), check_headerless, 10_000, 100_000).boxed(),
             sub(
                 "variant",
                 "non-trivial = document with ≥1 record; distinct by hash of the document",
                 |tier| (gvar::document(tier, &gvar::Mode::bcf_safe()), prop_oneof![9 => Just(false), 1 => Just(true)]).prop_map(|(doc, header_only)| VarCase { doc, header_only }).boxed(),
                 check_var,
-                6_000,
-                150_000,
+                24_000,
+                300_000,
             )
             .boxed(),
         ],
